@@ -19,4 +19,18 @@ ShapeFails(o) ==
 \cup (IF RunsInRect(o.cr, o.bbox) THEN {} ELSE {"contains_true_outside_bbox"})
 \cup (IF RunsInRect(o.pr, o.bbox) THEN {} ELSE {"point_outside_bbox"})
 \cup (IF \A i \in 1..Len(o.far) : o.far[i][3] = 0 THEN {} ELSE {"contains_true_far_outside"})
+
+\* points() observed through other Iterator methods (o.proto, recorded when next() showed the sequence o.pr of o.np
+\* points to be finite): they all describe the same sequence
+ProtoFails(o) ==
+  LET q == o.proto  n == o.np IN
+  IF o.trunc # 0 THEN {}
+  ELSE (IF q.cnt = n THEN {} ELSE {"count_differs_from_next"})
+  \cup (IF q.last = (IF n = 0 THEN <<>> ELSE RunsNth(o.pr, n - 1)) THEN {} ELSE {"last_differs_from_next"})
+  \cup (IF q.lo <= n /\ (q.hi = -1 \/ q.hi >= n) THEN {} ELSE {"size_hint_excludes_length"})
+  \cup (IF q.mlo <= n - q.k /\ (q.mhi = -1 \/ q.mhi >= n - q.k) THEN {} ELSE {"size_hint_excludes_remaining_length"})
+  \cup (IF /\ Len(q.walk) = Min(n \div q.stride, 4096)
+           /\ \A j \in 1..Len(q.walk) : q.walk[j][1] = j * q.stride - 1 /\ <<q.walk[j][2], q.walk[j][3]>> = RunsNth(o.pr, q.walk[j][1])
+        THEN {} ELSE {"nth_differs_from_next"})
+  \cup (IF q.after = <<1, 1>> THEN {} ELSE {"yields_again_after_the_end"})
 =============================================================================
